@@ -23,7 +23,10 @@ unit of a two-decimal value).  Two comparisons are made for a circuit with k ent
     only error left is floating point: tolerance 1e-9 on unnormalised probabilities, i.e.
     1e-9 * (27/2)^k after renormalisation by the success probability (k = 0: 1e-9; this is
     4.5e6 * eps(float64), >= 1e3 * eps * (number of 2x2 rotations <= 60) with margin).
-    The relative error of the success probability S / (2/27)^k - 1 has the same tolerance.
+    The relative error of the success probability S / (2/27)^k' - 1 has the same tolerance, where
+    S is the code-space mass of the branch map and k' counts the entangling gates *before the
+    last measurement* (PostSelectPhotons leaves the state unnormalised and the next measurement
+    folds that norm into the branch frequency; a herald after the last measurement is invisible).
 (B) *the program as emitted*: a beamsplitter whose angle is off by eps changes the n-photon
     unitary by at most n * eps in operator norm (the generator theta * i(a^dag b - a b^dag) has
     spectrum {-n..n}).  Every other step (gate, herald projection, measurement isometry,
@@ -39,6 +42,14 @@ Both add the mass of records that `execute(shots=None)` drops by design: a measu
 outcome is filtered out when its (unnormalised) probability is np.isclose to 0 (<= 1e-8); a
 reference record whose smallest step probability times (2/27)^(entangling gates since the
 previous measurement) is <= 1e-8 may therefore be absent.
+
+Conditional-block shapes: 10 % of the circuits use a shape of `if_test` beyond "one block, one
+qubit, clbit index == position of the measurement" (permuted clbits, a body on two qubits, an
+else body).  A failing case of that kind is re-run as the equivalent circuit in the plain shape
+(one single-gate block per body gate, else body as a block on the complementary value, clbits
+renumbered); if that passes, the violation gets the mechanism key of the shape, otherwise it is
+shrunk (remove one op at a time, <= 30 runs) and keyed by symptom + gate names of the smallest
+failing circuit.  VERIF_C19_NO_EXOTIC=1 leaves those shapes out (mutation self-test aid).
 
 Finite shots (a sample of cases, shots=2000) only check support: without entangling gates one
 sample outside the reference support is a violation; with entangling gates the angle rounding
@@ -69,8 +80,10 @@ LEVEL_TEXT = (
 LEVEL_NOTE = (
     "Trusts vf/refs/qubit.py (cross-checked against qiskit.quantum_info on every case, never used as oracle) and "
     "that Knill's CZ with exact angles is exact; circuits that touch a qubit after its measurement, measurements "
-    "inside conditional blocks, register-valued conditions, 3 qubits with 3 entangling gates (1.4 TB dense creation "
-    "operator) are not generated."
+    "inside conditional blocks, entangling gates inside conditional blocks, register-valued conditions, 3 qubits "
+    "with 3 entangling gates (1.4 TB dense creation operator) and 3 qubits with 2 entangling gates preceded by a "
+    "measurement (6 GB density matrix) are not generated; the rigorous tolerance for emitted angles is loose "
+    "(1.6e-2 .. 0.53), the sharp comparison runs on the exact-angle variant of the emitted program."
 )
 RULE = (
     "cases = one per generated circuit document (plus its exact-angle variant and, for a sample, a 2000-shot run); "
@@ -560,8 +573,9 @@ def note(ctx, which, cmp, tol_p, tol_s, clean=True):
         return
     ctx.c["max_dev_%s" % which] = max(ctx.c["max_dev_%s" % which], cmp["dev"])
     ctx.c["max_success_dev_%s" % which] = max(ctx.c["max_success_dev_%s" % which], cmp["dev_s"])
-    ctx.c["max_dev_%s_over_tol" % which] = max(ctx.c["max_dev_%s_over_tol" % which], cmp["dev"] / (tol_p + cmp["allow"]),
-                                               cmp["dev_s"] / (tol_s + cmp["allow"]))
+    # the mass of records dropped by the simulator's branch filter (allow) explains itself; the ratio is on the rest
+    ctx.c["max_dev_%s_over_tol" % which] = max(ctx.c["max_dev_%s_over_tol" % which], max(cmp["dev"] - cmp["allow"], 0.0) / tol_p,
+                                               max(cmp["dev_s"] - cmp["allow"], 0.0) / tol_s)
 
 
 def evaluate(pq, ctx, case, tier="quick", count=True):
